@@ -1422,6 +1422,8 @@ class ManualWorker(Worker):
                 return reg_eval(M, op, self.touched)
             if kind == "lcall":
                 return lcall(M, op)
+            if kind in ("wdyn", "wcap", "wunc", "wun", "wcall"):
+                return w_eval(M, op, self.caps)
             if kind == "libprobe":
                 return ("probe", lib_probe(M))
             if kind == "static":
@@ -2282,8 +2284,10 @@ def encode_reg(m, nthreads, history, outs):
             ds += [0, OUTCOME.get(res[1], 3), 0]
         elif res[0] == "none":
             ds += [1, 0, 0]
-        elif res[0] == "ran":
+        elif res[0] == "ran" and len(res) == 3 and all(isinstance(x, int) for x in res[1:]):
             ds += [2, min(res[1], 63), min(res[2], 63)]
+        elif res[0] == "ran":
+            ds += [2, 62, 62]                     # the call ended in something the harness cannot read: never agrees
         else:
             ds += [4, 0, 0]
     assert all(0 <= d < 64 for d in ds), ds
@@ -2539,6 +2543,182 @@ def _sweep_job(m, histories):
     return out, None
 
 
+# ----------------------------------------------------------------------------- the metadata of the closure (Model: wst / wop)
+# ("set"|"enter", t, m, sel, local) | ("exit", t, m, exn) | ("wdyn", t, m) | ("wcap", t, m, top) | ("wunc", t, m, k)
+# | ("wun", t, m, top) | ("wcall", t, m, top); the closure of M.fn (context / outer); thread 0 = main (no selections)
+def w_obj(M, top):
+    return getattr(M.top_obj if top else M.mgr, M.fn)
+
+
+def w_eval(M, op, caps):
+    k = op[0]
+    try:
+        if k == "wdyn":
+            M.mgr.use_dynamic_dispatch()
+            return ("none",)
+        if k == "wcap":
+            caps.append(w_obj(M, op[3]))
+            return ("none",)
+        if k == "wunc":
+            if op[3] >= len(caps):
+                return ("err",)
+            r = caps[op[3]].__wrapped__(*M.args)
+        elif k == "wun":
+            r = w_obj(M, op[3]).__wrapped__(*M.args)
+        else:
+            r = w_obj(M, op[3])(*M.args)
+        if isinstance(r, tuple) and len(r) == 2 and r[0] == "c17":
+            return ("ran", M.token(r[1]))
+        return ("ran", None)                       # an unmarked (stock class) method ran
+    except Exception as e:  # noqa
+        return ("ran", ("?", "raised " + repr(e)[:60]))
+
+
+def drive_meta(m, history, nthreads=3):
+    M = Mgr.get(m)
+    caps = []
+    M.mgr.use_dynamic_dispatch()                   # the class closures are (re-)made by the main thread on the default backend
+    workers = {}
+    for t in range(1, nthreads):
+        w = ManualWorker(m, t)
+        w.caps = caps
+        w.start()
+        workers[t] = w
+    outs = []
+    try:
+        for op in history:
+            res = w_eval(M, op, caps) if op[1] == 0 else workers[op[1]].call(("d", op))
+            if isinstance(res, tuple) and res and res[0] == "harness-error":
+                raise HarnessStuck(str(res))
+            outs.append(res)
+        return outs
+    finally:
+        for w in workers.values():
+            w.q.put(("stop",))
+        for w in workers.values():
+            if w.thread is not None:
+                w.thread.join(timeout=TIMEOUT)
+        for X in Mgr.both():
+            X.reset()
+        M.mgr.use_dynamic_dispatch()
+
+
+def random_whistory(rng, m, maxlen):
+    M = Mgr.get(m)
+    valid = [("o", k) for k in range(len(M.pool))] + [("n", k) for k in M.names if M.sel_valid(("n", k))]
+    depth = {1: 0, 2: 0}
+    h, ncaps = [], 0
+    for _ in range(rng.randint(3, maxlen)):
+        r = rng.random()
+        if r < 0.3:
+            t = rng.choice([1, 2])
+            if depth[t] and rng.random() < 0.35:
+                depth[t] -= 1
+                h.append(("exit", t, m, rng.random() < 0.4))
+                continue
+            kind = rng.choice(["set", "set", "enter"])
+            if kind == "enter":
+                depth[t] += 1
+            h.append((kind, t, m, rng.choice(valid), rng.random() < 0.65))
+        elif r < 0.4:
+            h.append(("wdyn", rng.choice([1, 2]), m))
+            h.append(("wun", rng.choice([0, 1, 2]), m, False))
+        elif r < 0.52:
+            h.append(("wcap", rng.choice([0, 1, 2]), m, rng.random() < 0.5))
+            ncaps += 1
+        elif r < 0.65 and ncaps:
+            h.append(("wunc", rng.choice([0, 1, 2]), m, rng.randrange(ncaps)))
+        elif r < 0.85:
+            h.append(("wun", rng.choice([0, 1, 2]), m, rng.random() < 0.5))
+        else:
+            h.append(("wcall", rng.choice([0, 1, 2]), m, rng.random() < 0.5))
+    return tuple(h)
+
+
+def encode_meta(m, nthreads, history, outs):
+    ds = [12, m, nthreads, 1, len(history) // 64, len(history) % 64]
+    for op, res in zip(history, outs):
+        k = op[0]
+        if k in ("set", "enter"):
+            ds += [0 if k == "set" else 1, op[1], SELKIND[op[3][0]], op[3][1], int(op[4])]
+        elif k == "exit":
+            ds += [2, op[1], int(op[3]), 0, 0]
+        elif k == "wdyn":
+            ds += [3, op[1], 0, 0, 0]
+        else:
+            ds += [{"wcap": 4, "wunc": 5, "wun": 6, "wcall": 7}[k], op[1], int(op[3]), 0, 0]
+        if res[0] == "sel":
+            ds += [0, OUTCOME.get(res[1], 3)]
+        elif res[0] == "ran":
+            ds += [2, tok_digit(res[1])]
+        else:
+            ds += [DOUT[res[0]], 0]
+    assert all(0 <= d < 64 for d in ds), ds
+    return ds
+
+
+def predicates_meta(m, nthreads, history, outs):
+    """C17_closure_metadata_static / _top_static / _remade / C17_closure_call_follows_view on the implementation's outcomes"""
+    M = Mgr.get(m)
+    own = {t: None for t in range(nthreads)}
+    own[0] = ("n", 0)
+    default = ("n", 0)
+    stack = {t: [] for t in range(nthreads)}
+    made_cls, made_top, caps = ("n", 0), ("n", 0), []
+    fails = []
+
+    def shows(res, tok):
+        return res[0] == "ran" and (res[1] == tok or (res[1] is None and tok[0] == "n" and tok[1] in M.stock))
+    for i, (op, res) in enumerate(zip(history, outs)):
+        k, t = op[0], op[1]
+        cur = own[t] if own[t] is not None else default
+        if k in ("set", "enter"):
+            if res == ("sel", "done"):
+                if k == "enter":
+                    stack[t].append((cur, op[4]))
+                own[t] = ("n", op[3][1]) if op[3][0] == "n" else ("o", op[3][1])
+                if not op[4]:
+                    default = own[t]
+        elif k == "exit":
+            if stack[t]:
+                old, loc = stack[t].pop()
+                own[t] = old
+                if not loc:
+                    default = old
+        elif k == "wdyn":
+            made_cls = cur
+        elif k == "wcap":
+            caps.append(made_top if op[3] else made_cls)
+        else:
+            exp = caps[op[3]] if k == "wunc" else ((made_top if op[3] else made_cls) if k == "wun" else cur)
+            if not shows(res, exp):
+                pred = "C17_closure_call_follows_view" if k == "wcall" else "C17_closure_metadata_static"
+                fails.append((pred, i, f"thread {t}: {k} ({'import-time binding' if (k != 'wunc' and op[3]) else 'manager module' if k != 'wunc' else 'captured reference ' + str(op[3])}) "
+                              f"ran on {res}, expected {exp} (class closures made with {made_cls}, caller's backend {cur})"))
+    return fails
+
+
+def wop_lit(op):
+    if op[0] in ("set", "enter", "exit"):
+        return "WSel " + op_lit(op).split(", ", 1)[1][:-1]
+    return {"wdyn": "WDynamic {1}", "wcap": "WCapture {1} {3}", "wunc": "WUnwrapCap {1} {3}", "wun": "WUnwrap {1} {3}", "wcall": "WCall {1} {3}"}[op[0]].format(*(list(op) + [None]))
+
+
+def _meta_job(m, histories):
+    Ms = Mgr.both()
+    out = []
+    for h in histories:
+        for X in Ms:
+            X.reset()
+        outs = drive_meta(m, h)
+        fails = predicates_meta(m, 3, h, outs)
+        out.append((pack(encode_meta(m, 3, h, outs)), fails[0] if fails else None,
+                    [f"{'tenalg' if m else 'backend'}.{op[0]}:{res[0]}" for op, res in zip(h, outs) if op[0].startswith("w")]))
+    for X in Ms:
+        X.reset()
+    return out, None
+
+
 # ----------------------------------------------------------------------------- pool jobs
 def _pool_job(job):
     """executed in a pool process (in its main thread): drives the histories and digests the results there:
@@ -2551,6 +2731,8 @@ def _pool_job(job):
         return _reg_job(mode - 12, histories)
     if mode in (14, 15):
         return _sweep_job(mode - 14, histories)
+    if mode in (16, 17):
+        return _meta_job(mode - 16, histories)
     if mode in (8, 9):
         return _dispatch_job(mode - 8, histories)
     if mode >= 3 and mode != 7:
@@ -2664,6 +2846,7 @@ def make_groups(tier, rng):
                        "dispatch-routes"))
         groups.append((8 + m, False, 4, exhaustive_dhistories(m, 3), "dispatch-exhaustive-3"))
         groups.append((11, False, 2, [m], "rebind-window"))
+        groups.append((16 + m, False, 3, [random_whistory(rng, m, 12 if quick else 30) for _ in range(100 if quick else 1000)], "closure-metadata"))
         groups.append((14 + m, False, 4, [sweep_history(rng, m) for _ in range(6 if quick else 60)], "sweep-all-names"))
         groups.append((12 + m, False, 3, [random_rhistory(rng, m, 12 if quick else 30) for _ in range(120 if quick else 1500)], "register-backend-method"))
     return groups
@@ -2744,12 +2927,15 @@ def run(chk):
         meta.append(None)
     for g, res in zip(groups, results):
         mode, main_actor, nthreads, hs, tag = g
-        gname = {0: "backend:", 1: "tenalg:", 2: "both:", 3: "backend:", 4: "tenalg:", 7: "both:", 8: "backend:", 9: "tenalg:", 11: "both:", 12: "backend:", 13: "tenalg:", 14: "backend:", 15: "tenalg:"}[mode] + tag
+        gname = {0: "backend:", 1: "tenalg:", 2: "both:", 3: "backend:", 4: "tenalg:", 7: "both:", 8: "backend:", 9: "tenalg:", 11: "both:", 12: "backend:", 13: "tenalg:", 14: "backend:", 15: "tenalg:", 16: "backend:", 17: "tenalg:"}[mode] + tag
         for h, (lit, fail, outs) in zip(hs, res):
             cid = len(cases)
             cases.append(f"({cid}, {lit})")
             meta.append((mode, main_actor, nthreads, h, tag))
-            if mode in (14, 15):
+            if mode in (16, 17):
+                ops = h
+                nontrivial = any(op[0] == "wdyn" for op in h) and any(op[0] in ("set", "enter") for op in h)
+            elif mode in (14, 15):
                 ops, nontrivial = h, True
             elif mode in (12, 13):
                 ops = h
@@ -2771,13 +2957,16 @@ def run(chk):
             for o in outs:
                 chk.hist("operation", o)
             if fail is not None:
-                found.append((len(h) if mode != 11 else 1, cid, fail))
+                found.append((len(h) if mode != 11 else 0, cid, fail))
     # shortest failing histories first; every finding carries the prefix of the history up to the failing step
     found.sort()
     for (_, cid, (pred, i, msg)) in found[:60]:
         mode, main_actor, nthreads, h, tag = meta[cid]
         if mode == 11:
             chk.finding("use_dynamic_dispatch", {"mode": 11, "manager": h, "stopped_after_lines": i}, msg, pred)
+            continue
+        if mode in (16, 17):
+            chk.finding("dispatch_backend_method (closure metadata)", {"mode": mode, "history": dhist_to_json(h[:i + 1])}, f"step {i} ({wop_lit(h[i])}): {msg}", pred)
             continue
         if mode in (14, 15):
             chk.finding(ENTRY[mode - 6], {"mode": mode, "history": dhist_to_json(h[:i + 1])}, f"step {i}: {msg}", pred)
@@ -2911,7 +3100,8 @@ def run(chk):
                        "ALL NAMES: 6 (thorough 60) histories per manager ending in sweeps by two actor threads and a thread started at that moment over EVERY name of "
                        "_functions / _attributes through the manager module, tensorly.<name>, and the class or a library alias; the name tables are read off the source and "
                        "shipped to the model. REBIND: use_dynamic_dispatch under settrace stopped after k = 0..13 lines while another thread looks a name up (model: window "
-                       "iff the loop has the delattr). INITIALIZE: `import tensorly` in 6 fresh processes under TENSORLY_BACKEND / TENSORLY_TENALG_BACKEND in {unset, default name, other loadable name, "
+                       "iff the loop has the delattr). METADATA: 100 (thorough 1000) random histories per manager of selections, use_dynamic_dispatch, captures and calls of "
+                       "f.__wrapped__ / f for the closure of context / outer through the import-time binding and the manager module. INITIALIZE: `import tensorly` in 6 fresh processes under TENSORLY_BACKEND / TENSORLY_TENALG_BACKEND in {unset, default name, other loadable name, "
                        "unlisted name, wrong case, listed-but-not-importable}: outcome (imported / warned / import failed), get_backend() in the importing thread and in a new "
                        "thread, _default_backend compared with the model's `initialize`. Non-trivial = at least two threads act and a context is entered; distinct key = (mode, "
                        "main-thread role, history). At most 40 disagreeing cases per shard of 2500 are listed")
@@ -2935,6 +3125,10 @@ def run(chk):
                              {"manager": "tensorly.tenalg" if m else "tensorly.backend", "programs [set, enter, exit, exit-by-exception] x [global, local]": progs})
             continue
         mode, main_actor, nthreads, h, tag = meta[i]
+        if mode in (16, 17):
+            chk.disagreement("corr:C17 closure metadata (Model/BackendDispatch.v wst / wop vs f.__wrapped__ of the dispatch closures)",
+                             {"mode": mode, "history": dhist_to_json(h)})
+            continue
         if mode in (14, 15):
             chk.disagreement("corr:C17 dispatch over ALL dispatched names (model instantiated with the name tables read off the source)",
                              {"mode": mode, "history": dhist_to_json(h[:12]), "look_ups": len(h)})
@@ -2978,6 +3172,16 @@ def replay(payload):
         print("replay file names a broken theorem/correspondence, not an input:", payload.get("theorem_or_correspondence"))
         return 1
     inp = payload["inputs"]
+    if int(inp["mode"]) in (16, 17):
+        m = int(inp["mode"]) - 16
+        h = dhist_from_json(inp["history"])
+        outs = drive_meta(m, h)
+        fails = predicates_meta(m, 3, h, outs)
+        for M in Mgr.both():
+            M.unmark()
+        for f in fails[:5]:
+            print("replay:", f)
+        return 1 if fails else 0
     if int(inp["mode"]) in (14, 15):
         m = int(inp["mode"]) - 14
         h = dhist_from_json(inp["history"])
